@@ -374,6 +374,7 @@ class World:
         self.errors = []
         self.silent = False
         self.last_iid = None
+        self.adapter_api = None
         self.loop.set_exception_handler(self._on_loop_exception)
         self._ep_cells = {}
         flags = 0
@@ -387,6 +388,7 @@ class World:
             flags |= 8
         if opts.get('adapters'):
             flags |= 16
+            flags &= ~1       # credit is granted by the adapter, not by recorded application calls
         mimes = '%s|%s' % (opts.get('md_mime') or 'application/json', opts.get('data_mime') or 'application/json')
         self.rec.log('-', 'meta', n=flags, kind=self.mode, x=opts.get('frag') or 0, ml=opts.get('keepalive_ms', 500),
                      dl=opts.get('lifetime_ms', 600000), role=mimes,
@@ -592,7 +594,14 @@ class World:
         def on_ready(sock):
             w._instrument_endpoint('s', sock)
 
-        self.eps['s'] = RSocketServer(ts, handler_factory=lambda: self.RecHandler(self, 's'), on_ready=on_ready, **kw)
+        hf = lambda: self.RecHandler(self, 's')
+        if o.get('adapters'):
+            from . import adapters
+            if self.adapter_api is None:
+                self.adapter_api = adapters.AdapterApi(self, o['adapters'])
+            cls = adapters.make_handler_class(self, self.adapter_api.L)
+            hf = self.adapter_api.L['handler_factory'](lambda: cls('s'))
+        self.eps['s'] = RSocketServer(ts, handler_factory=hf, on_ready=on_ready, **kw)
         if self.mode == 'msg':
             self._srv_task = self.loop.create_task(ts.handle_incoming_ws_messages())
 
@@ -654,6 +663,9 @@ class World:
                 kw['data_encoding'] = o['data_mime'].encode() if isinstance(o['data_mime'], str) else o['data_mime']
             if o.get('md_mime'):
                 kw['metadata_encoding'] = o['md_mime'].encode() if isinstance(o['md_mime'], str) else o['md_mime']
+            if o.get('adapters') and self.adapter_api is None:
+                from . import adapters
+                self.adapter_api = adapters.AdapterApi(self, o['adapters'])
             client = RSocketClient(provider(), handler_factory=lambda: self.RecHandler(self, 'c'), **kw)
             self._instrument_endpoint('c', client)
             self.eps['c'] = client
@@ -971,6 +983,8 @@ class World:
         return self.payloads.make(*spec)
 
     def request_response(self, ep, spec, policy=None, probe=False):
+        if self.adapter_api is not None and self.opts.get('adapters'):
+            return self.adapter_api.request_response(ep, spec, policy, probe)
         pid, p = self.payloads.make(*spec)
         self.last_iid = pid
         self.policy[pid] = policy or {}
@@ -999,6 +1013,8 @@ class World:
         return it['future'].cancel()
 
     def fire_and_forget(self, ep, spec, policy=None):
+        if self.adapter_api is not None and self.opts.get('adapters'):
+            return self.adapter_api.fire_and_forget(ep, spec, policy)
         pid, p = self.payloads.make(*spec)
         self.last_iid = pid
         self.policy[pid] = policy or {}
@@ -1011,6 +1027,8 @@ class World:
         return pid
 
     def metadata_push(self, ep, mlen, policy=None):
+        if self.adapter_api is not None and self.opts.get('adapters'):
+            return self.adapter_api.metadata_push(ep, mlen, policy)
         pid, p = self.payloads.make(0, mlen)
         self.policy[pid] = policy or {}
         it = self.interaction(pid)
@@ -1022,6 +1040,8 @@ class World:
         return pid
 
     def request_stream(self, ep, spec, n0=None, policy=None, subscribe=True, sub_raise_in=None):
+        if self.adapter_api is not None and self.opts.get('adapters'):
+            return self.adapter_api.request_stream(ep, spec, n0, policy, subscribe)
         pid, p = self.payloads.make(*spec)
         self.last_iid = pid
         self.policy[pid] = policy or {}
@@ -1041,6 +1061,8 @@ class World:
         return pid
 
     def request_channel(self, ep, spec, n0=None, policy=None, pub=True, pub_policy=None, subscribe=True):
+        if self.adapter_api is not None and self.opts.get('adapters'):
+            return self.adapter_api.request_channel(ep, spec, n0, policy, pub, pub_policy, subscribe)
         pid, p = self.payloads.make(*spec)
         self.last_iid = pid
         self.policy[pid] = policy or {}
@@ -1065,6 +1087,8 @@ class World:
         return pid
 
     def subscribe(self, iid):
+        if self.adapter_api is not None and self.opts.get('adapters'):
+            return self.adapter_api.subscribe(iid)
         it = self.interaction(iid)
         self.rec.log(it['init'], 'app_subscribe', iid=iid)
         it['requester'].subscribe(it['sub'])
